@@ -173,6 +173,45 @@ Example C14_parse_forms_nonvacuous :
   = [100; 1; 194; 57; 9; 8; 129; 1; 2].
 Proof. split; reflexivity. Qed.
 
+(* ---- AddDONL on: "the decoding-order fields are placed where RFC 7798 puts them", for every
+   sequence of units none of which needs fragmentation (a fragmented unit under AddDONL is
+   KF-C14-donl-every-fu).  The buffered units leave the payloader as exactly the RFC 7798 encoding
+   WITH decoding-order fields (Spec/Rfc7798.v [encode true]) of an aggregation packet - DONL behind
+   the payload header, a one-byte DOND in front of every further unit's size - or as a single NAL
+   unit packet with the DONL between payload header and payload; parsed by H265Packet with DONL
+   expected, every packet decodes with its fields present and the units come back in order. ---- *)
+From Coq Require Import Lia.
+From RTP Require Import Proofs.C14_Donl.
+
+Theorem C14_donl_aggregation_is_rfc : forall st b n1 n2 t mtu, h5_donl_on st = true -> 0 <= h5_donl st < 65536 ->
+  hb_nalus b = n1 :: n2 :: t -> buf_ok mtu true b ->
+  Forall (fun n => zlen n < 65536) (n1 :: n2 :: t) ->
+  exists layer tid,
+    let f := FAgg layer tid (h5_donl st) n1 (donds 0 (n2 :: t)) in
+    h5_flush st b = Ok (st, [Own (encode true f)]) /\ wf_form f /\
+    (forall n, In n (n1 :: n2 :: t) -> layer <= nh_layer_id (hdr_of_nalu n) /\ tid <= nh_tid (hdr_of_nalu n)).
+Proof. exact aggregation_donl_encodes. Qed.
+Print Assumptions C14_donl_aggregation_is_rfc.
+
+Theorem C14_lossless_donl_partial : forall mtu st x l, 4 <= mtu -> h5_donl_on st = true -> 0 <= h5_donl st < 65536 ->
+  Forall (unit_fits mtu) (emit_nalus (x :: l)) ->
+  exists st' fs pkts, h265_payload st mtu (Some (x :: l)) = Ok (st', fs) /\
+    Forall2 parses_d fs pkts /\ Forall donl_placed pkts /\ reassemble pkts None = emit_nalus (x :: l).
+Proof. exact h265_lossless_donl. Qed.
+Print Assumptions C14_lossless_donl_partial.
+
+Example C14_lossless_donl_nonvacuous :
+  let au := [0; 0; 1; 2; 1; 10; 0; 0; 1; 66; 9; 11; 12; 0; 0; 1; 38; 1; 13] in
+  Forall (unit_fits 30) (emit_nalus au) /\
+  h265_payload (mkH265Pay true false 7) 30 (Some au)
+  = Ok (mkH265Pay true false 7, [Own [96; 1; 0; 7; 0; 3; 2; 1; 10; 0; 0; 4; 66; 9; 11; 12; 1; 0; 3; 38; 1; 13]]) /\
+  h265_payload (mkH265Pay true true 7) 30 (Some [0; 0; 1; 2; 1; 10])
+  = Ok (mkH265Pay true true 8, [Own [2; 1; 0; 7; 10]]).
+Proof.
+  split; [|split; vm_compute; reflexivity].
+  vm_compute. repeat (constructor; try (vm_compute; intuition (try lia; try discriminate))).
+Qed.
+
 (* ---- the two known findings, as witnesses evaluated on the model (vm_compute); the same inputs
    replayed on the implementation give the same bytes (corpus/C14.cases) ---- *)
 (* KF-C14-lone-fu: a NAL unit of MTU-1 bytes becomes a single fragmentation unit with S set and
